@@ -1,5 +1,9 @@
 """C03 — a transaction runs only when it is fully enabled."""
+import random
+
+from ..coregen.gen import generate_cond
 from ..coregen.prop import CoreProp
+from ..kernel import h64
 
 
 class Prop(CoreProp):
@@ -9,6 +13,14 @@ class Prop(CoreProp):
     feat = {'p_val': 0.5, 'p_en': 0.5, 'p_nested': 0.25, 'n_before': (0, 2), 'rdep': True, 'n_conflicts': (0, 1)}
     rule = 'one run = one generated program (1-3 modules, 1-5 transactions, 0-6 methods, call depth <= 3, nested bodies, If/Switch/FSM around bodies and calls, enable_call, validate_arguments, aliases, nonexclusive methods, schedule_before(ready_dependent=True)) under one arbiter and one internal set order, driven for 60-160 cycles by a seeded phase plan (random / all-on contention / single-method stall / flapping / exhaustive valuation sweep when <= 10 one-bit inputs); distinct = distinct (program, arbiter, set of transactions running in a cycle); non-trivial = at least one transaction ran'
     expected_cov = ['transaction_ran', 'ready_but_not_run', 'validated_call_active', 'call_refused_by_validate_arguments', 'concurrent_transactions']
+
+    def gen_config(self, rng, tier, idx):
+        cfg = super().gen_config(rng, tier, idx)
+        if idx % 5 == 4:  # nested transactions created by condition(): ready dependent on the enclosing body
+            prng = random.Random(h64(self.master_seed, self.ID, "cond-program", idx))
+            cfg["prog"] = generate_cond(prng)
+            cfg["sched"] = "eager"
+        return cfg
 
 
 PROP = Prop()
